@@ -6,7 +6,7 @@ from bridge_env.data_handler.abstract_classes import BoardSetting
 from bridge_env.data_handler.pbn_handler.parser import PbnParser
 from bridge_env.data_handler.pbn_handler.writer import PbnWriter, Scoring
 from pyvc.dsl import (Bool, Const, Dict, Enum, Ext, Int, IntElem, Obj, OneOf, OpaqueVal, Opt, Seq,
-                      Shape, Text, TraceList, TraceReset, Tuple, contract, klass, lemma,
+                      Shape, Text, TraceList, TraceReset, TracePrefix, Tuple, contract, klass, lemma,
                       transparent, LoopContract)
 from pyvc.ext import LineElem, LINE_BLANK, LINE_CONTENT, LINE_PERCENT
 from pyvc.speclib import (conj, disj, forall, iff, implies, ite, line_kind, run_real, same, seq_appended,
@@ -228,12 +228,15 @@ def _settings_inv():
     return True
 
 
-def _game_becomes_the_board_written(outputs, x):
+def _game_becomes_the_board_written(outputs, x, iter):
     """C17: the game's board setting has the deal written (from whichever first seat), its dealer,
-    its vulnerability in any accepted spelling, and its board id."""
+    its vulnerability in any accepted spelling, and its board id -- and it is put behind the
+    boards of the earlier games (file order)."""
     d = PBN.parse_deal(x['Deal'])
-    b = outputs[0] if len(outputs) == 1 else None
-    return (b is not None) and conj(
+    if not (outputs == iter.outputs + [outputs[-1]]):
+        return False
+    b = outputs[-1]
+    return conj(
         b.hands.north == d[Player.N], b.hands.east == d[Player.E], b.hands.south == d[Player.S],
         b.hands.west == d[Player.W], b.dealer is G.SEAT_OF_LETTER[x['Dealer']],
         b.vul is G.VUL_OF_TEXT[x['Vulnerable']], b.board_id == x['Board'], b.dda is None)
@@ -264,7 +267,7 @@ class _parse_board_settings:
     sample_params = _pbn_file_sample
     params = dict(fp=Seq(LineElem()))
     modifies = ['self']
-    loops = {0: LoopContract(invariant=_settings_inv, havoc_heap=dict(outputs=TraceReset()),
+    loops = {0: LoopContract(invariant=_settings_inv, havoc_heap=dict(outputs=TracePrefix()),
                              body_ensures=dict(
                                  game_becomes_the_board_written=_game_becomes_the_board_written))}
     note = ('parse_stream is used by contract: its games arrive in file order; each game is the '
@@ -273,6 +276,31 @@ class _parse_board_settings:
 
     def requires_no_comment_in_progress(self):
         return not self._in_comment
+
+
+def _each_game_once_in_order(outputs, x, iter):
+    """parse_all hands on every game parse_stream delivers, once, in the order delivered: the
+    game is put behind the games of the earlier iterations."""
+    return outputs == iter.outputs + [x]
+
+
+@contract('bridge_env.data_handler.pbn_handler.parser.PbnParser.parse_all', props=P17 + ['C18'])
+class _parse_all:
+    sample_params = _pbn_file_sample
+    params = dict(fp=Seq(LineElem()))
+    modifies = ['self']
+    loops = {0: LoopContract(invariant=_settings_inv, havoc_heap=dict(outputs=TracePrefix()),
+                             body_ensures=dict(each_game_once_in_order=_each_game_once_in_order))}
+    note = ('C18 observes the parser through parse_all: the list is exactly the games of '
+            'parse_stream (used by contract), in order')
+
+    def requires_no_comment_in_progress(self):
+        return not self._in_comment
+
+    # (native form: the same games as the stream reader delivers on a fresh parser)
+    native_ensures_same_games_as_the_stream = (
+        'loop0.body/each_game_once_in_order',
+        lambda fp, result: result == list(PbnParser().parse_stream(list(fp))))
 
 
 @lemma('C17-known-finding-run-of-blanks-in-a-value', props=['C17'])
